@@ -170,6 +170,21 @@ func cmdCheck(args []string) int {
 		}
 		sort.Strings(rep.Reached)
 		sort.Strings(rep.Unreached)
+		// vacuity: paths that died in a panic before their assertions were evaluated decide nothing for this property.
+		// Where panics are not this harness's obligation (C09 reports them itself) they make the run inconclusive.
+		if n := rep.PathEnds["panic"]; n > 0 && id != "C09" && !hs.Panics {
+			msg := ""
+			for _, p := range x.Paths {
+				if p.End == "panic" {
+					msg = p.Msg
+					break
+				}
+			}
+			x.Inconclusive = append(x.Inconclusive, fmt.Sprintf("%d of %d paths ended in a panic before their assertions were decided (%s): nothing is claimed for them", n, len(x.Paths), firstLine(msg)))
+		}
+		if len(x.Paths) > 0 && len(x.AssertsProved) == 0 && len(x.AssertsFailed) == 0 && len(x.Reached) == 0 {
+			x.Inconclusive = append(x.Inconclusive, "no assertion and no vacuity witness was reached on any path")
+		}
 		seen := map[string]bool{}
 		for _, s := range x.Inconclusive {
 			if !seen[s] {
